@@ -77,6 +77,7 @@ struct OpenFile {
   uint64_t bytes_delivered = 0; // total bytes handed out by read()
   uint64_t bytes_accepted = 0; // total bytes taken by write()
   short ready = 0; // poll readiness bits for Poll scenarios
+  bool explicit_ready = false; // true: poll() reports `ready` as set by the harness; false: what the file's state implies
   size_t script_pos = 0;
   std::string path;
 };
